@@ -45,7 +45,15 @@ func (b Branch) Target(ctx context.Context, height int) (*big.Int, error) {
 	projected.Mul(work, big.NewInt(600))
 	projected.Div(projected, big.NewInt(int64(timeSpan)))
 
-	target := bitcoin.ConvertToWork(projected)
+	// The network computes the target as 2^256 / PW - 1, expressed as (2^256 - PW) / PW so it fits
+	// in 256 bits. This is not the same rounding as converting work to difficulty.
+	if projected.Sign() <= 0 {
+		return (&big.Int{}).Set(bitcoin.MaxWork), nil
+	}
+	target := &big.Int{}
+	target.Lsh(big.NewInt(1), 256)
+	target.Sub(target, projected)
+	target.Div(target, projected)
 
 	if target.Cmp(bitcoin.MaxWork) > 0 {
 		target.Set(bitcoin.MaxWork)
